@@ -4,7 +4,7 @@
    Layer 1 is parametric in the URL library: it holds for every function standing in for
    url.Parse / URL.Query / filepath.Clean, so it carries no trust in Model/Url.v. *)
 From AP.Model Require Import Prelude Bytes Url IriEq IriNf Vocab Pred CollIri IriNfX Utf8 FoldTab Fold UrlU IriEqU.
-From AP.Proofs Require Import NlvP IriEqP LowerP SortP IriGenP IriNfP IriXP Utf8P FoldP DecodeUP CleanUP UrlUP QueryUP IriGenUP IriUP ConservUP.
+From AP.Proofs Require Import NlvP IriEqP LowerP SortP IriGenP IriNfP IriXP Utf8P FoldP DecodeUP CleanUP UrlUP QueryUP IriGenUP IriUP ConservUP StrictLooseUP.
 From Coq Require Import Sorting.Permutation.
 
 (* ---- layer 1: arbitrary strings, arbitrary library behaviour ---- *)
@@ -430,6 +430,23 @@ Theorem C14_one_case_needed_u :
   exists a b c, iri_dom_u_upper a = true /\ iri_dom_u b = true /\ iri_dom_u c = true /\
     iri_equ a b false = true /\ iri_equ b c false = true /\ iri_equ a c false = false.
 Proof. exact mixed_case_not_transitive_u. Qed.
+
+(* "only when the caller asks - the scheme [is] ignored": asking for the scheme can only make the relation finer, on ALL
+   byte strings (not URLs, empty, invalid UTF-8, "://" inside a path or query included; builder b56).  Not immediate:
+   the fast path folds what stripScheme leaves of the two strings, and iri.go equalFold identifies runes of different
+   byte lengths, so the two cuts fall at different byte offsets - C14_strip_scheme_fold_u is the lemma. *)
+Theorem C14_strip_scheme_fold_u : forall x y, scanon x = scanon y -> scanon (strip_scheme x) = scanon (strip_scheme y).
+Proof. exact strip_scheme_scanon. Qed.
+Theorem C14_scheme_finer_u : forall a b, iri_equ a b true = true -> iri_equ a b false = true.
+Proof. exact iri_equ_strict_loose. Qed.
+Example C14_scheme_finer_u_example :
+  let a := hx "e284aa3a2f2f612f62" in                 (* KELVIN SIGN, then "://a/b" *)
+  let b := B "k://A/B" in
+  iri_equ a b true = true /\ iri_equ a b false = true /\ strip_scheme a = B "://a/b" /\ strip_scheme b = B "://A/B" /\
+  iri_equ (B "x/y?u=p://q") (B "X/y?u=P://q") true = true /\ iri_equ (B "") (B "") true = true /\
+  iri_equ (B "http://example.com/a") (B "https://example.com/a") false = true /\
+  iri_equ (B "http://example.com/a") (B "https://example.com/a") true = false.
+Proof. cbv zeta. repeat split; vm_compute; reflexivity. Qed.
 
 (* the wide models extend the earlier ones: an IRI the parser of layer 4 accepts is parsed to the SAME url value, lies in
    the wide domain when it lies in iri_dom_x (hence when it lies in iri_dom: C14_x_conservative), and the two models of
